@@ -151,7 +151,7 @@ def correspondence(ctx):
     scale = (lambda q, t: t) if deep else ctx.scale
     _clear()
     subsets = all_subsets(8)
-    extra = random_lists(rng, scale(40, 400))
+    extra = random_lists(rng, scale(40, 1500))
     lists = subsets + extra
 
     # ---------------- 1. seq vs scalar loop on the real code, + Lean sweep model
@@ -214,7 +214,7 @@ def correspondence(ctx):
         _clear()
 
     # ---------------- 2. two-index families: pair lists in any order, repeats, vs the scalar functions
-    npl = scale(60, 600)
+    npl = scale(60, 2500)
     tlines, tmeta = [], []
     for kind in ('zern', 'zern_der', 'q2d', 'xy', 'xy_default', 'xy_grid'):
         for li, prs in enumerate(pair_lists(rng, npl, 'zern' if kind.startswith('zern') else ('q2d' if kind == 'q2d' else 'xy'))):
